@@ -2,6 +2,7 @@ package val
 
 import (
 	"reflect"
+	"strings"
 )
 
 func Equal(a Value, b Value) bool {
@@ -45,9 +46,23 @@ func EqualVals(a []Value, b []Value) bool {
 	return true
 }
 
+// compareAny orders any two values: values of different types (the members of a
+// union) by their type, values without an order of their own by their text
+func compareAny(a Value, b Value) int {
+	if a.Format() != b.Format() {
+		return int(a.Format()) - int(b.Format())
+	}
+	if ac, ordered := a.(Comparable); ordered {
+		if bc, ordered := b.(Comparable); ordered {
+			return ac.Compare(bc)
+		}
+	}
+	return strings.Compare(a.String(), b.String())
+}
+
 func CompareVals(a []Value, b []Value) int {
 	for i, v := range a {
-		c := v.(Comparable).Compare(b[i].(Comparable))
+		c := compareAny(v, b[i])
 		if c < 0 {
 			return c
 		}
